@@ -199,6 +199,7 @@ type refResult struct {
 	// with ORDER BY: `rows` is the full sorted candidate set before offset/limit
 	offset, limit int
 	multiset bool // compare as a multiset (joins, aggregates)
+	maxAvgRows int64 // largest number of rows that went into one AVG value
 }
 
 func lookupField(fields []rField, r qRef) (int, string) {
@@ -555,6 +556,9 @@ func refEval(q *qQuery, tables map[string]*qTable) *refResult {
 						o = append(o, g.count[i])
 					case "avg":
 						o = append(o, avgMarker{sum: g.sum[i], n: g.count[i]})
+						if g.count[i] > res.maxAvgRows {
+							res.maxAvgRows = g.count[i]
+						}
 					}
 				}
 				out = append(out, o)
@@ -825,6 +829,9 @@ type queryRunner struct {
 func (r *queryRunner) check(qw *qWorld, q *qQuery, family string, knownID string) {
 	text := q.sql()
 	ref := refEval(q, qw.tables)
+	if knownID == "D11-avg-running-rounded" && ref.maxAvgRows < 3 {
+		knownID = "" // the predicate of D11: an AVG over a group of three or more rows
+	}
 	rows, fields, err := qw.run(text)
 	r.nQuery++
 	msg := compareResult(ref, rows, fields, err)
